@@ -409,7 +409,24 @@ def unarr(dct):
     return a
 
 
+def preuse(c):
+    """read-only queries that other users of the same composite system may have made before (both modes of the
+    computational basis — column-major FIRST —, the basis, the sparse tables): none of them may change what the Lindbladian
+    functions compute afterwards"""
+    c.comp_basis(mode="column_major")
+    c.comp_basis(mode="row_major")
+    c.comp_basis()
+    c.basis()
+    for e_ in c.elemental_systems:
+        e_.comp_basis(mode="column_major")
+        e_.comp_basis()
+    _ = c.basis_basisconjugate_T_sparse_from_1, c.basishermitian_basis_T_from_1, c.basis_T_sparse
+    return c
+
+
 def sys_by_label(label, rot_seed):
+    if label.endswith("-pre"):
+        return preuse(sys_by_label(label[:-4], rot_seed))
     g = np.random.Generator(np.random.PCG64(rot_seed))
     if label.endswith("-rot"):
         return rotated_csys(g, label[:-4])
@@ -758,13 +775,14 @@ def oracle(ctx, volume=1):
     rot_seed = ctx.seed * 1000 + 17
     reps = (3 if ctx.quick else 8) * volume
     labels = ["qubit", "qubit-rot", "qutrit"] + ([] if ctx.quick and volume == 1 else ["qutrit-rot", "2qubit"])
+    labels += ["qubit-pre", "qutrit-pre"]       # systems that were queried (column-major comp basis first) before use
     for label in labels:
         c = sys_by_label(label, rot_seed)
         B = basis_of(c)
         d = c.dim
         n = d * d
         I = np.eye(d)
-        for rep in range(reps):
+        for rep in range(1 if label.endswith("-pre") else reps):
             cases = [(kind, SCALES[int(g.integers(0, 4))], SCALES[int(g.integers(0, 4))], "") for kind in K_KINDS]
             # weak generators: H and K both at strength 1e-4 / 1e-6 / 1e-7 (all clauses, relative tolerances)
             w = WEAK[rep % len(WEAK)]
@@ -805,6 +823,10 @@ def oracle(ctx, volume=1):
             ctx.count(f"oracle {label} argument memory layouts")
             ctx.case(("layout", label, Hl.tobytes(), Kl.tobytes()), nontrivial=True, sample={"op": "builders x memory layouts", "sys": label})
             check_layouts(ctx, label, rot_seed, c, Hl, Jl, Kl)
+            if rep == 0:
+                ctx.count(f"oracle {label} verdicts at explicit tolerances")
+                ctx.case(("verdict-tol", label), nontrivial=True, sample={"op": "is_tp / is_cp / is_physical with explicit tolerances", "sys": label})
+                check_verdict_tolerances(ctx, label, rot_seed, c, B, g)
             if rep == 0:
                 ctx.count(f"oracle {label} non-default options / argument dtypes")
                 ctx.case(("options", label), nontrivial=True, sample={"op": "builders x non-default options x dtypes", "sys": label})
@@ -1147,6 +1169,46 @@ def check_options_dtypes(ctx, label, rot_seed, c, B, g):
     return len(ctx.violations) - n0
 
 
+def check_verdict_tolerances(ctx, label, rot_seed, c, B, g):
+    """verdicts with EXPLICIT tolerances: generators that miss one constraint by a controlled amount (first-row entry
+    `v`, or smallest eigenvalue of K equal to `-v`, v = 1e-9) judged at tolerances 1e-13 and 1e-6, alone and in all four
+    combinations of `is_physical(atol_eq_const, atol_ineq_const)`; expectation: |row0| <= atol_eq and min eig K >= -atol_ineq."""
+    d = c.dim
+    n = d * d
+    n0 = len(ctx.violations)
+    v = 1e-9
+    H = herm(g, d, 1.0)
+    u = qobj.rand_unitary(g, n - 1)
+    ev = np.linspace(1.0, 0.5, n - 1)
+    Kpos = (u * ev) @ u.conj().T
+    ev2 = ev.copy(); ev2[-1] = -v
+    Kneg = (u * ev2) @ u.conj().T
+    Kpos = (Kpos + Kpos.conj().T) / 2; Kneg = (Kneg + Kneg.conj().T) / 2
+    hs_ok = el.generate_hs_from_hk(c, H, Kpos)
+    hs_row = hs_ok.copy(); hs_row[0, n - 1] += v
+    hs_k = el.generate_hs_from_hk(c, H, Kneg)
+    hs_both = hs_k.copy(); hs_both[0, 1] -= v
+    for nm, hsx, row_dev, k_dev in (("physical", hs_ok, 0.0, 0.0), ("row0-1e-9", hs_row, v, 0.0), ("K-1e-9", hs_k, 0.0, v), ("both-1e-9", hs_both, v, v)):
+        rep = {"kind": "verdict-tol", "sys": label, "rot_seed": rot_seed, "hs": arr(hsx), "case": nm}
+        try:
+            L = EL(c, hsx)
+            for a in (1e-13, 1e-6):
+                if bool(L.is_tp(a)) != (row_dev <= a):
+                    ctx.violate("C18/verdict-tolerance/is_tp", f"{label} {nm}: is_tp(atol={a:g}) = {L.is_tp(a)} with |first row| = {row_dev:g}", rep)
+                if bool(L.is_cp(a)) != (k_dev <= a):
+                    ctx.violate("C18/verdict-tolerance/is_cp", f"{label} {nm}: is_cp(atol={a:g}) = {L.is_cp(a)} with min eig K = {-k_dev:g}", rep)
+            for a in (1e-13, 1e-6):
+                for b_ in (1e-13, 1e-6):
+                    want = (row_dev <= a) and (k_dev <= b_)
+                    got = bool(L.is_physical(atol_eq_const=a, atol_ineq_const=b_))
+                    got_pos = bool(L.is_physical(a, b_))
+                    if got != want or got_pos != want:
+                        ctx.violate("C18/verdict-tolerance/is_physical", f"{label} {nm}: is_physical(atol_eq_const={a:g}, atol_ineq_const={b_:g}) = {got} (positional {got_pos}), expected {want}: |first row| = {row_dev:g}, min eig K = {-k_dev:g}", rep)
+        except Exception as e:  # noqa
+            ctx.violate("C18/verdict-tolerance/raises", f"{label} {nm}: {type(e).__name__}: {str(e)[:120]}", rep)
+    return len(ctx.violations) - n0
+
+
 def check_random_setting(ctx, label, rot_seed, base_kind, sh, sk, seeds):
     """RandomEffectiveLindbladianGenerationSetting: >= 3 successive generate() calls on ONE setting; each result must be
     base (snapshot taken BEFORE the first call) + GKSL(H_random, K_random) rebuilt independently from the returned random
@@ -1228,6 +1290,12 @@ def replay(ctx, data):
         k = check_layouts(ctx, r["sys"], r["rot_seed"], c, unarr(r["H"]), unarr(r["J"]), unarr(r["K"]))
         for v in ctx.violations:
             print("  still failing:", v["signature"], "-", v["what"])
+        return 1 if k else 0
+    if r["kind"] == "verdict-tol":
+        c = sys_by_label(r["sys"], r["rot_seed"])
+        k = check_verdict_tolerances(ctx, r["sys"], r["rot_seed"], c, basis_of(c), ctx.npgen(8))
+        for v_ in ctx.violations:
+            print("  still failing:", v_["signature"], "-", v_["what"])
         return 1 if k else 0
     if r["kind"] == "options":
         c = sys_by_label(r["sys"], r["rot_seed"])
